@@ -39,6 +39,9 @@ func checkC01(r *run, m *PacketModel) (CaseInfo, error) {
 	if len(buf) != size {
 		return ci, failf("Packet.Marshal produced %d bytes, MarshalSize()=%d", len(buf), size)
 	}
+	if again, err := p.Marshal(); err != nil || !bytes.Equal(again, buf) {
+		return ci, failf("a second Marshal of the same packet differs from the first (err %v)", err)
+	}
 	// encoder conformance against the independent reference (so that a symmetric
 	// encode/decode defect cannot hide): the strict RFC parser must read the model back.
 	w, err := rtpwire.Parse(buf)
@@ -58,6 +61,28 @@ func checkC01(r *run, m *PacketModel) (CaseInfo, error) {
 	}
 	if err := m.comparePacket(&q, "Unmarshal(Marshal(p))"); err != nil {
 		return ci, err
+	}
+
+	// the same bytes decoded the way a receive loop does: one buffer, one Packet, which has
+	// just decoded another packet (shorter header, payload at least as long) from that buffer
+	{
+		shared := make([]byte, len(buf)+64)
+		first := make([]byte, 12+len(m.Payload)+8)
+		first[0] = 0x80
+		var rq rtp.Packet
+		if err := rq.Unmarshal(shared[:copy(shared, first)]); err != nil {
+			return ci, failf("harness: plain packet rejected: %v", err)
+		}
+		in := shared[:copy(shared, buf)]
+		if err := rq.Unmarshal(in); err != nil {
+			return ci, failf("Unmarshal into a reused Packet rejects the packet's own Marshal output: %v", err)
+		}
+		if !bytes.Equal(in, buf) {
+			return ci, failf("Unmarshal into a reused Packet (same receive buffer) modified its input")
+		}
+		if err := m.comparePacket(&rq, "Unmarshal(Marshal(p)) into a reused Packet through one receive buffer"); err != nil {
+			return ci, err
+		}
 	}
 
 	// Header alone.
